@@ -3,6 +3,7 @@
 -/
 import DisjointImpls.Lemmas.Refine
 import DisjointImpls.Lemmas.EndToEnd
+import DisjointImpls.Lemmas.EndToEndNested
 import DisjointImpls.Props.C11
 namespace DI
 
@@ -382,5 +383,372 @@ theorem C02_end_to_end_readme :
   · exact ⟨Ex11.blockFor "GroupB", by simp [items],
       applies_of_B (ρ := [("_ŠČ0", .ty i64T)]) (by with_unfolding_all decide)⟩
 end E2EExample
+
+/-! ## End to end for ARBITRARY accepted invocations (nested headers included)
+
+  `Lemmas/EndToEndNested.lean`. Side conditions, all executable:
+  * `nestedGroupOK (parseEnv items) e` (per group): every dispatch key has a `wfPath` trait path, and every member `i`
+    (block `b`, substitution `θ` = the matcher's answer on family header / member header, which is proved to be the
+    substitution the search used — `C02_member_theta_is_search_subst`) passes `nestedMemberOK`:
+    - `inst θ (family header) == member header` EXACTLY (C09 gives it only modulo presentation, `erase`; checked);
+    - the founding member's `θ` is the identity;
+    - for every own key `k'` of the member one of whose re-expressions `sk` (`reexpr`, C11 Part 6) is a key of the family:
+      `θ` is the identity, or `untouched θ k'.1 && untouched θ k'.2` (the D4 condition of `C10_bound_roundtrip`: a
+      parameter of the bound that reverse substitution leaves in place is fixed by `θ`) and `instCommOK_nst sk.2` (`normTr`
+      commutes with `inst` on the re-expressed trait path — `C02_normTr_inst`); `wfPath` of `sk.2`, `k'.2` and of every
+      trait bound of the block with the dispatch key of `k'`, agreement on the leading `::`, no relaxed `?Trait` bound
+      (as in `flatGroupOK`, which is the special case — `C02_nestedGroupOK_of_flat`);
+  * `nestedCoversB F` (for `thetaCoversB`): header `wf` (C09), all parameter occurrences of header and keys visible to the
+    matcher in the header, every member's `θ` is the matcher's answer without a lenient arm and `kindOK` for header / keys;
+  * `acyclicB items` (coverage, direction ⇐ only): the recorded header relation is acyclic, so every block is placed. -/
+
+/-- `normTr` (the normalisation of a trait path into the dispatch key's trait: bindings removed, `Tr<>` = `Tr`, turbofish
+    erased) commutes with every instantiation on a path that passes the executable check `instCommOK_nst`: `wfPath`, every
+    segment has `None` / `AngleBracketed [_, List _]` arguments, no generic argument of the last segment is a bare
+    parameter occurrence -/
+theorem C02_normTr_inst (θ : Subst) (p : T) (h : instCommOK_nst p = true) : normTr (inst θ p) = inst θ (normTr p) :=
+  normTr_inst_nst θ h
+
+/-- the substitution of a member in the abstraction (`memberTheta_nst`: what `Bounds.mkMember` computes, the matcher's
+    answer on the two headers) IS the substitution with which the search let the block join the family (`memberSubst`,
+    C11 Part 6), and it has distinct keys — no side condition -/
+theorem C02_member_theta_is_search_subst (items : List T) (gid : T) (b : Blk) (σ : Subst)
+    (h : memberSubst (parseEnv items) gid (groupIdOf b.item) = some σ) :
+    memberTheta_nst gid b = σ ∧ (σ.map Prod.fst).Nodup :=
+  memberTheta_eq_nst h
+
+/-- the hypothesis `memberOK` of the refinement theorems holds for every member — nested or not — of every family the
+    model computes for an accepted invocation, when the group passes `nestedGroupOK` -/
+theorem C02_end_to_end_memberOK (items : List T) (groups : Groups) (h : parseGroups items = .ok groups) (sp : List String) :
+    ∀ e ∈ groups, nestedGroupOK (parseEnv items) e = true →
+      ∀ m ∈ (familyOfGroup sp e).members, memberOK (familyOfGroup sp e) m = true :=
+  fun _ he hok => nested_memberOK h sp he hok
+
+/-- `flatGroupOK` is the special case of `nestedGroupOK` for un-nested invocations … -/
+theorem C02_nestedGroupOK_of_flat (items : List T) (groups : Groups) (h : parseGroups items = .ok groups)
+    (hn : noNesting items = true) : ∀ e ∈ groups, flatGroupOK e = true → nestedGroupOK (parseEnv items) e = true :=
+  fun _ he hok => nestedGroupOK_of_flat h (noNesting_spec items hn) he hok
+
+/-- … so `C02_end_to_end_flat_memberOK` follows from `C02_end_to_end_memberOK` -/
+theorem C02_end_to_end_flat_memberOK_from_nested (items : List T) (groups : Groups) (h : parseGroups items = .ok groups)
+    (hn : noNesting items = true) (sp : List String) :
+    ∀ e ∈ groups, flatGroupOK e = true →
+      ∀ m ∈ (familyOfGroup sp e).members, memberOK (familyOfGroup sp e) m = true :=
+  fun e he hok => C02_end_to_end_memberOK items groups h sp e he (C02_nestedGroupOK_of_flat items groups h hn e he hok)
+
+/-- `thetaCoversB` (the executable form of `ThetaCovers`) for every member of a family that passes `nestedCoversB`
+    (a statement about the family alone; `C09_binds_all_wf` supplies the bindings, the kinds are checked) -/
+theorem C02_end_to_end_thetaCovers (F : Family) (hcov : nestedCoversB F = true) :
+    ∀ m ∈ F.members, thetaCoversB F m = true :=
+  nested_thetaCovers hcov
+
+/-- both decidable hypotheses of the refinement, for every member of every family of an accepted invocation -/
+theorem C02_end_to_end_hypotheses (items : List T) (groups : Groups) (h : parseGroups items = .ok groups) (sp : List String) :
+    ∀ e ∈ groups, nestedGroupOK (parseEnv items) e = true → nestedCoversB (familyOfGroup sp e) = true →
+      ∀ m ∈ (familyOfGroup sp e).members,
+        memberOK (familyOfGroup sp e) m = true ∧ thetaCoversB (familyOfGroup sp e) m = true :=
+  fun _ he hok hcov m hm => ⟨nested_memberOK h sp he hok m hm, nested_thetaCovers hcov m hm⟩
+
+/-- EXACT COVERAGE, END TO END, for arbitrary accepted invocations: for every input of the model that is accepted, whose
+    recorded header relation is acyclic (`acyclicB`, C11 Part 4b) and whose groups pass the executable checks, for every
+    world in which dispatch traits define their associated types (`WorldTotal`) and the `Sized` requirements are
+    compatible (`SizedCompat`; fails for finding D7), and for every query `q`: the generated program implements the trait
+    for `q` through some family and member  iff  one of the user's blocks applies to `q`. -/
+theorem C02_end_to_end_coverage (items : List T) (groups : Groups) (h : parseGroups items = .ok groups)
+    (ha : acyclicB items = true) (sp : List String)
+    (hok : ∀ e ∈ groups, nestedGroupOK (parseEnv items) e = true ∧ nestedCoversB (familyOfGroup sp e) = true)
+    (W : World) (hw : ∀ e ∈ groups, WorldTotal W (familyOfGroup sp e))
+    (hsz : ∀ e ∈ groups, ∀ m ∈ (familyOfGroup sp e).members, SizedCompat W (familyOfGroup sp e) m) (q : T) :
+    (∃ e ∈ groups, ∃ m ∈ (familyOfGroup sp e).members, genSel W (familyOfGroup sp e) m q) ↔
+    (∃ it ∈ items, applies W (mkBlock (canon it)) q) :=
+  nested_coverage h ha sp hok W hw hsz q
+
+/-- the un-nested end-to-end coverage theorem `C02_end_to_end_flat_coverage` is the special case of
+    `C02_end_to_end_coverage`: `noNesting` implies `acyclicB`, `flatGroupOK` implies `nestedGroupOK`, `hdrCoversB` implies
+    `nestedCoversB` -/
+theorem C02_end_to_end_flat_coverage_from_nested (items : List T) (groups : Groups) (h : parseGroups items = .ok groups)
+    (hn : noNesting items = true) (sp : List String)
+    (hok : ∀ e ∈ groups, flatGroupOK e = true ∧ hdrCoversB (familyOfGroup sp e) = true)
+    (W : World) (hw : ∀ e ∈ groups, WorldTotal W (familyOfGroup sp e))
+    (hsz : ∀ e ∈ groups, ∀ m ∈ (familyOfGroup sp e).members, SizedCompat W (familyOfGroup sp e) m) (q : T) :
+    (∃ e ∈ groups, ∃ m ∈ (familyOfGroup sp e).members, genSel W (familyOfGroup sp e) m q) ↔
+    (∃ it ∈ items, applies W (mkBlock (canon it)) q) :=
+  C02_end_to_end_coverage items groups h (acyclicB_of_no_pairs_nst items (by simpa [noNesting] using hn)) sp
+    (fun e he => ⟨C02_nestedGroupOK_of_flat items groups h hn e he (hok e he).1,
+      nestedCoversB_of_flat_group h (noNesting_spec items hn) sp he (hok e he).2⟩) W hw hsz q
+
+namespace E2E
+open Ex11
+/-- `impl<T: Dispatch<Group = GroupA>> Kita for T {}`  +
+    `impl<T> Kita for Vec<T> where Vec<T>: Dispatch<Group = GroupB> {}` (tests/supersets_1.rs style) -/
+def itemsNested : List T := [blockSelf "GroupA" tT,
+  implW [tyParam "T" []] [pred (vecOf tT) [traitBound (dispatch "GroupB")]] (vecOf tT)]
+/-- D4: `impl<T: Dispatch<Group = GroupA>> Kita for T {}`  +  `impl<U: Dispatch<Group = GroupB>> Kita for Vec<U> {}` (the
+    parameter names are immaterial: `canon` renames both to `_ŠČ0`) -/
+def itemsD4 : List T := [blockSelf "GroupA" tT, blockSelf "GroupB" (vecOf tT)]
+/-- `u32: Dispatch<Group = GroupA>`, `Vec<u32>: Dispatch<Group = GroupB>`, nothing else; every type is `Sized` -/
+def WN : World :=
+  ⟨fun tr ty => if tr = dispTr ∧ ty = u32T then some [("Group", tyPath [seg "GroupA"])]
+    else if tr = dispTr ∧ ty = vecOf u32T then some [("Group", tyPath [seg "GroupB"])] else none, fun _ => true⟩
+/-- `u32: Dispatch<Group = GroupB>`, nothing else; every type is `Sized` -/
+def WD4 : World :=
+  ⟨fun tr ty => if ty = u32T ∧ tr = dispTr then some [("Group", tyPath [seg "GroupB"])] else none, fun _ => true⟩
+end E2E
+
+section E2ENested
+open E2E
+set_option maxRecDepth 1000000
+
+/-- the `untouched` clause of `nestedGroupOK` cannot be dropped (finding D4): `impl<T: D<G = A>> Kita for T` +
+    `impl<U: D<G = B>> Kita for Vec<U>` is accepted as ONE family with the key `T: D` and the rows `G = A`, `G = B` — the
+    bound `U: D` of the second block is outside the image of its substitution `{T ↦ Vec<U>}`, reverse substitution leaves it
+    in place and it collides with the family's key `T: D`. The generated program dispatches `Vec<U>` on `<Vec<U> as D>::G`,
+    the user's block on `<U as D>::G`: `memberOK` is FALSE for the second member (no clause `Vec<U>: D`). Everything else
+    holds on the witness: the header relation is acyclic, the group passes `flatGroupOK` (well-formed paths, leading `::`,
+    no relaxed bound, `selfIdentity`) and `nestedCoversB`, the second member's header is the exact instance of the family's
+    header; the one failing conjunct is `untouched θ (U)`. -/
+theorem C02_end_to_end_memberOK_counterexample_D4 :
+    ∃ gs, parseGroups itemsD4 = .ok gs ∧
+      (acyclicB itemsD4 &&
+       gs.map (fun e => (nestedGroupOK (parseEnv itemsD4) e, flatGroupOK e, nestedCoversB (familyOfGroup ["_ŠČ0"] e),
+          (familyOfGroup ["_ŠČ0"] e).members.map (fun m => memberOK (familyOfGroup ["_ŠČ0"] e) m)))
+         == [(false, true, true, [true, false])] &&
+       gs.all (fun e => match e.2.2[1]? with
+         | some b => inst (memberTheta_nst e.1 b) e.1 == groupIdOf b.item &&
+             (otherFold b).all (fun k'r => !untouched (memberTheta_nst e.1 b) k'r.1.1 && untouched (memberTheta_nst e.1 b) k'r.1.2)
+         | none => false)) = true :=
+  ParseResult.ok_of_check (f := fun gs => acyclicB itemsD4 &&
+       gs.map (fun e => (nestedGroupOK (parseEnv itemsD4) e, flatGroupOK e, nestedCoversB (familyOfGroup ["_ŠČ0"] e),
+          (familyOfGroup ["_ŠČ0"] e).members.map (fun m => memberOK (familyOfGroup ["_ŠČ0"] e) m)))
+         == [(false, true, true, [true, false])] &&
+       gs.all (fun e => match e.2.2[1]? with
+         | some b => inst (memberTheta_nst e.1 b) e.1 == groupIdOf b.item &&
+             (otherFold b).all (fun k'r => !untouched (memberTheta_nst e.1 b) k'r.1.1 && untouched (memberTheta_nst e.1 b) k'r.1.2)
+         | none => false)) (by with_unfolding_all decide)
+
+/-- hence, for nested invocations, the conditions of the flat theorem (`flatGroupOK`) do not suffice: the statement with
+    `flatGroupOK` in place of `nestedGroupOK` and `acyclicB` in place of `noNesting` is false -/
+theorem C02_end_to_end_memberOK_without_untouched_false :
+    ¬ ∀ (items : List T) (groups : Groups), parseGroups items = .ok groups → acyclicB items = true →
+        ∀ e ∈ groups, flatGroupOK e = true →
+          ∀ m ∈ (familyOfGroup ["_ŠČ0"] e).members, memberOK (familyOfGroup ["_ŠČ0"] e) m = true := by
+  intro hall
+  obtain ⟨gs, hgs, hchk⟩ := C02_end_to_end_memberOK_counterexample_D4
+  simp only [Bool.and_eq_true, beq_iff_eq] at hchk
+  obtain ⟨⟨ha, hmap⟩, _⟩ := hchk
+  have hall' := hall itemsD4 gs hgs ha
+  cases gs with
+  | nil => simp at hmap
+  | cons e rest =>
+    simp only [List.map_cons, List.cons.injEq, Prod.mk.injEq] at hmap
+    obtain ⟨⟨_, hflat, _, h1⟩, _⟩ := hmap
+    have hm := hall' e (by simp) hflat
+    generalize (familyOfGroup ["_ŠČ0"] e).members = ms at h1 hm
+    cases ms with
+    | nil => simp at h1
+    | cons m1 ms1 =>
+      cases ms1 with
+      | nil => simp at h1
+      | cons m2 ms2 =>
+        simp only [List.map_cons, List.cons.injEq] at h1
+        have := hm m2 (by simp)
+        rw [this] at h1
+        exact absurd h1.2.1 (by simp)
+
+/-- … and the failure is semantic, not an artefact of the checks: EXACT COVERAGE is false on the D4 witness. In the world
+    `E2E.WD4` (`u32: Dispatch<Group = GroupB>`, nothing else; total for the family's key, everything `Sized`) the user's second
+    block `impl<U: Dispatch<Group = GroupB>> Kita for Vec<U>` applies to `Kita for Vec<u32>`, but the generated program does
+    not implement `Kita` for `Vec<u32>`: its main impl requires the projection `<Vec<u32> as Dispatch>::Group` of the
+    family's key `T: Dispatch` at `T = Vec<u32>`, which this world does not define. All side conditions of
+    `C02_end_to_end_coverage` other than the `untouched` clause hold. -/
+theorem C02_end_to_end_coverage_counterexample_D4 :
+    ∃ gs, parseGroups itemsD4 = .ok gs ∧ acyclicB itemsD4 = true ∧
+      (∀ e ∈ gs, flatGroupOK e = true ∧ nestedCoversB (familyOfGroup ["_ŠČ0"] e) = true) ∧
+      (∀ e ∈ gs, WorldTotal WD4 (familyOfGroup ["_ŠČ0"] e)) ∧
+      (∀ e ∈ gs, ∀ m ∈ (familyOfGroup ["_ŠČ0"] e).members, SizedCompat WD4 (familyOfGroup ["_ŠČ0"] e) m) ∧
+      (∃ it ∈ itemsD4, applies WD4 (mkBlock (canon it)) (query (Ex11.vecOf u32T))) ∧
+      ¬ (∃ e ∈ gs, ∃ m ∈ (familyOfGroup ["_ŠČ0"] e).members,
+          genSel WD4 (familyOfGroup ["_ŠČ0"] e) m (query (Ex11.vecOf u32T))) := by
+  obtain ⟨gs, hgs, hchk⟩ := ParseResult.ok_of_check (r := parseGroups itemsD4)
+    (f := fun gs => gs.all (fun e => flatGroupOK e && nestedCoversB (familyOfGroup ["_ŠČ0"] e) &&
+      ((familyOfGroup ["_ŠČ0"] e).hdr == query (.tparam "_ŠČ0") &&
+       (familyOfGroup ["_ŠČ0"] e).keys == [(⟨.tparam "_ŠČ0", dispTr, "Group"⟩ : Key)]))) (by with_unfolding_all decide)
+  simp only [List.all_eq_true, Bool.and_eq_true, beq_iff_eq] at hchk
+  refine ⟨gs, hgs, by with_unfolding_all decide, fun e he => (hchk e he).1, ?_, fun _ _ _ _ _ _ _ _ _ => rfl, ?_, ?_⟩
+  · intro e he k hk tr ty bs hd
+    rw [(hchk e he).2.2] at hk
+    simp only [List.mem_singleton] at hk
+    subst hk
+    simp only [WD4] at hd
+    split at hd
+    · cases hd; exact ⟨_, rfl⟩
+    · cases hd
+  · exact ⟨Ex11.blockSelf "GroupB" (Ex11.vecOf Ex11.tT), by simp [itemsD4],
+      applies_of_B (ρ := [("_ŠČ0", .ty u32T)]) (by with_unfolding_all decide)⟩
+  · rintro ⟨e, he, m, _, τ, gs', _, hq, _, hlen, hproj, _⟩
+    obtain ⟨_, hhdr, hkeys⟩ := hchk e he
+    rw [hhdr] at hq
+    have hT : inst τ (.tparam "_ŠČ0") = Ex11.vecOf u32T := by
+      unfold query at hq
+      rw [inst_node_ne_nst τ _ _ (by decide)] at hq
+      simp only [instL] at hq
+      injection hq with _ _ hq
+      injection hq with _ hq
+      injection hq with hq _
+    have h0 : 0 < (familyOfGroup ["_ŠČ0"] e).keys.length := by rw [hkeys]; simp
+    obtain ⟨bs, hbs, _⟩ := hproj 0 h0 (by rw [hlen]; exact h0)
+    have hk0 : (familyOfGroup ["_ŠČ0"] e).keys[0] = (⟨.tparam "_ŠČ0", dispTr, "Group"⟩ : Key) := by
+      simp only [hkeys, List.getElem_cons_zero]
+    rw [hk0] at hbs
+    simp only [hT, WD4] at hbs
+    rw [if_neg (by rintro ⟨h1, _⟩; revert h1; with_unfolding_all decide)] at hbs
+    cases hbs
+
+/-- non-vacuity, on the nested pair `impl<T: Dispatch<Group = GroupA>> Kita for T` /
+    `impl<T> Kita for Vec<T> where Vec<T>: Dispatch<Group = GroupB>` and the world `E2E.WN` (`u32: Dispatch<Group = GroupA>`,
+    `Vec<u32>: Dispatch<Group = GroupB>`): the input is accepted as one family, is NOT un-nested (`noNesting` false), its
+    header relation is acyclic, the family passes `nestedGroupOK` and `nestedCoversB`; the world is total for its key and
+    `Sized`-compatible. Hence the end-to-end theorems apply: both members satisfy `memberOK` and `thetaCoversB`; for EVERY
+    query the generated program selects some member iff some block applies; it does select one for `Kita for u32` (first
+    block) and for `Kita for Vec<u32>` (second, nested block). -/
+theorem C02_end_to_end_nested_example :
+    ∃ gs, parseGroups itemsNested = .ok gs ∧ noNesting itemsNested = false ∧ acyclicB itemsNested = true ∧
+      (∀ e ∈ gs, nestedGroupOK (parseEnv itemsNested) e = true ∧ nestedCoversB (familyOfGroup ["_ŠČ0"] e) = true) ∧
+      (gs.map (fun e => (familyOfGroup ["_ŠČ0"] e).members.length) = [2]) ∧
+      (∀ e ∈ gs, ∀ m ∈ (familyOfGroup ["_ŠČ0"] e).members,
+        memberOK (familyOfGroup ["_ŠČ0"] e) m = true ∧ thetaCoversB (familyOfGroup ["_ŠČ0"] e) m = true) ∧
+      (∀ q, (∃ e ∈ gs, ∃ m ∈ (familyOfGroup ["_ŠČ0"] e).members, genSel WN (familyOfGroup ["_ŠČ0"] e) m q) ↔
+            (∃ it ∈ itemsNested, applies WN (mkBlock (canon it)) q)) ∧
+      (∃ e ∈ gs, ∃ m ∈ (familyOfGroup ["_ŠČ0"] e).members, genSel WN (familyOfGroup ["_ŠČ0"] e) m (query u32T)) ∧
+      (∃ e ∈ gs, ∃ m ∈ (familyOfGroup ["_ŠČ0"] e).members, genSel WN (familyOfGroup ["_ŠČ0"] e) m (query (Ex11.vecOf u32T))) := by
+  obtain ⟨gs, hgs, hchk⟩ := ParseResult.ok_of_check (r := parseGroups itemsNested)
+    (f := fun gs => gs.all (fun e => nestedGroupOK (parseEnv itemsNested) e && nestedCoversB (familyOfGroup ["_ŠČ0"] e) &&
+      (familyOfGroup ["_ŠČ0"] e).keys.all (fun k => k.a == "Group")) &&
+      gs.map (fun e => (familyOfGroup ["_ŠČ0"] e).members.length) == [2]) (by with_unfolding_all decide)
+  have hn : noNesting itemsNested = false := by with_unfolding_all decide
+  have ha : acyclicB itemsNested = true := by with_unfolding_all decide
+  simp only [List.all_eq_true, Bool.and_eq_true, beq_iff_eq] at hchk
+  obtain ⟨hchk, hlen⟩ := hchk
+  have hok : ∀ e ∈ gs, nestedGroupOK (parseEnv itemsNested) e = true ∧ nestedCoversB (familyOfGroup ["_ŠČ0"] e) = true :=
+    fun e he => (hchk e he).1
+  have hw : ∀ e ∈ gs, WorldTotal WN (familyOfGroup ["_ŠČ0"] e) := by
+    intro e he k hk tr ty bs hd
+    rw [(hchk e he).2 k hk]
+    simp only [WN] at hd
+    split at hd
+    · cases hd; exact ⟨_, rfl⟩
+    · split at hd
+      · cases hd; exact ⟨_, rfl⟩
+      · cases hd
+  have hsz : ∀ e ∈ gs, ∀ m ∈ (familyOfGroup ["_ŠČ0"] e).members, SizedCompat WN (familyOfGroup ["_ŠČ0"] e) m :=
+    fun _ _ _ _ _ _ _ _ _ => rfl
+  have hcov := C02_end_to_end_coverage itemsNested gs hgs ha ["_ŠČ0"] hok WN hw hsz
+  refine ⟨gs, hgs, hn, ha, hok, hlen,
+    fun e he => C02_end_to_end_hypotheses itemsNested gs hgs ["_ŠČ0"] e he (hok e he).1 (hok e he).2,
+    hcov, (hcov _).2 ?_, (hcov _).2 ?_⟩
+  · exact ⟨Ex11.blockSelf "GroupA" Ex11.tT, by simp [itemsNested],
+      applies_of_B (ρ := [("_ŠČ0", .ty u32T)]) (by with_unfolding_all decide)⟩
+  · exact ⟨Ex11.implW [Ex11.tyParam "T" []] [Ex11.pred (Ex11.vecOf Ex11.tT) [Ex11.traitBound (Ex11.dispatch "GroupB")]]
+        (Ex11.vecOf Ex11.tT), by simp [itemsNested],
+      applies_of_B (ρ := [("_ŠČ0", .ty u32T)]) (by with_unfolding_all decide)⟩
+end E2ENested
+
+namespace E2E
+open Ex11
+/-- the (ill-formed for `syn`, well-formed for `wfPath`) trait path `D<_ŠČ0>` whose generic argument is a BARE parameter
+    occurrence instead of a `GenericArgument::…` node -/
+def bareArgPath : T := .node "Path" [] [.node "IgnL" [] [leaf "None"], .node "List" [] [.node "PathSegment" [] [.node "Ident" ["D"] [],
+  .node "PathArguments::AngleBracketed" [] [.node "Ign" [] [leaf "None"], .node "List" [] [.tparam "_ŠČ0"]]]]]
+/-- the binding `G = A` as a generic argument -/
+def bindGA : T := .node "GenericArgument::AssocType" [] [.node "AssocType" [] [.node "Ident" ["G"] [], leaf "None", tyPath [seg "A"]]]
+end E2E
+
+section E2ENestedMore
+open E2E Ex11
+set_option maxRecDepth 1000000
+
+/-- the side condition of `C02_normTr_inst` cannot be dropped: on a `wfPath` path whose generic argument is a bare
+    parameter, an instantiation can put an associated-type binding there, which `normTr` then removes — `normTr` after
+    `inst` differs from `inst` after `normTr` (cannot arise from `syn`, whose generic arguments are always
+    `GenericArgument::…` nodes) -/
+theorem C02_normTr_inst_counterexample :
+    wfPath bareArgPath = true ∧ instCommOK_nst bareArgPath = false ∧
+    normTr (inst [("_ŠČ0", .ty bindGA)] bareArgPath) ≠ inst [("_ŠČ0", .ty bindGA)] (normTr bareArgPath) := by
+  decide +kernel
+
+/-- the exact-instance clause of `nestedGroupOK` cannot be dropped: for `impl<T: Dispatch<Group = GroupA>> Kita for (T)` +
+    `impl<T: Dispatch<Group = GroupB>> Kita for T` (headers that differ by parentheses only, `C11_partition_mutual_headers_pair`)
+    the second member joins the family of the first with an identity substitution, but the instance of the family's header
+    `(T)` is not literally the member's header `T` (only modulo `erase`, C09): `memberOK` is false for it, although the group
+    passes `flatGroupOK` and `nestedCoversB`. (A presentation artefact of comparing headers as trees, not a defect of the
+    generated program.) -/
+theorem C02_end_to_end_memberOK_counterexample_paren :
+    ∃ gs, parseGroups [blockSelf "GroupA" (paren tT), blockSelf "GroupB" tT] = .ok gs ∧
+      (gs.map (fun e => (nestedGroupOK (parseEnv [blockSelf "GroupA" (paren tT), blockSelf "GroupB" tT]) e, flatGroupOK e,
+          nestedCoversB (familyOfGroup ["_ŠČ0"] e),
+          (familyOfGroup ["_ŠČ0"] e).members.map (fun m => (memberOK (familyOfGroup ["_ŠČ0"] e) m,
+            inst m.θ (familyOfGroup ["_ŠČ0"] e).hdr == m.blk.hdr, allIdentity m.θ))))
+         == [(false, true, true, [(true, true, true), (false, false, true)])]) = true :=
+  ParseResult.ok_of_check (f := fun gs =>
+      gs.map (fun e => (nestedGroupOK (parseEnv [blockSelf "GroupA" (paren tT), blockSelf "GroupB" tT]) e, flatGroupOK e,
+          nestedCoversB (familyOfGroup ["_ŠČ0"] e),
+          (familyOfGroup ["_ŠČ0"] e).members.map (fun m => (memberOK (familyOfGroup ["_ŠČ0"] e) m,
+            inst m.θ (familyOfGroup ["_ŠČ0"] e).hdr == m.blk.hdr, allIdentity m.θ))))
+         == [(false, true, true, [(true, true, true), (false, false, true)])]) (by decide +kernel)
+end E2ENestedMore
+
+namespace E2E
+open Ex11
+/-- `Option<x>` -/
+def optOf (x : T) : T := tyPath [.node "PathSegment" [] [.node "Ident" ["Option"] [],
+  .node "PathArguments::AngleBracketed" [] [.node "Ign" [] [leaf "None"], .node "List" [] [.node "GenericArgument::Type" [] [x]]]]]
+/-- `impl<T, U> Kita for self where self: Dispatch<Group = g> {}` -/
+def whereSelf2 (g : String) (self : T) : T :=
+  implW [tyParam "T" [], tyParam "U" []] [pred self [traitBound (dispatch g)]] self
+/-- the invocation of /repo/tests/supersets_1.rs: `impl<T> Kita for T where Option<T>: Dispatch<Group = GroupA>`,
+    `impl<U> Kita for Vec<U> where Option<Vec<U>>: Dispatch<Group = GroupB>`,
+    `impl<T> Kita for Option<T> where Option<T>: Dispatch<Group = GroupA>` -/
+def itemsSupersets1 : List T := [
+  implW [tyParam "T" []] [pred (optOf tT) [traitBound (dispatch "GroupA")]] tT,
+  implW [tyParam "U" []] [pred (optOf (vecOf tU)) [traitBound (dispatch "GroupB")]] (vecOf tU),
+  implW [tyParam "T" []] [pred (optOf tT) [traitBound (dispatch "GroupA")]] (optOf tT)]
+/-- the invocation of /repo/tests/supersets_2.rs: the diamond `(T, U)`, `(Vec<T>, U)`, `(T, Vec<U>)`, `(Vec<T>, Vec<U>)`, each
+    bounded on its own self type -/
+def itemsSupersets2 : List T := [whereSelf2 "GroupA" (tup [tT, tU]), whereSelf2 "GroupB" (tup [vecOf tT, tU]),
+  whereSelf2 "GroupC" (tup [tT, vecOf tU]), whereSelf2 "GroupD" (tup [vecOf tT, vecOf tU])]
+/-- all executable side conditions of the end-to-end theorems, and the numbers of members per family -/
+def nestedChecks (items : List T) (sp : List String) (sizes : List Nat) (gs : Groups) : Bool :=
+  acyclicB items && gs.all (fun e => nestedGroupOK (parseEnv items) e && nestedCoversB (familyOfGroup sp e)) &&
+  gs.map (fun e => e.2.2.length) == sizes
+end E2E
+
+section E2ESupersets
+open E2E
+set_option maxRecDepth 1000000
+
+/-- further non-vacuity: the two nested invocations of the implementation's own test suite (tests/supersets_1.rs — two
+    families, the first with a nested member `Vec<U>` below `T`; tests/supersets_2.rs — one family of four members, a
+    diamond of headers) are accepted, acyclic, and every group passes `nestedGroupOK` and `nestedCoversB`; hence every
+    member satisfies both decidable hypotheses of the refinement -/
+theorem C02_end_to_end_supersets_examples :
+    (∃ gs, parseGroups itemsSupersets1 = .ok gs ∧ nestedChecks itemsSupersets1 ["_ŠČ0"] [2, 1] gs = true ∧
+      ∀ e ∈ gs, ∀ m ∈ (familyOfGroup ["_ŠČ0"] e).members,
+        memberOK (familyOfGroup ["_ŠČ0"] e) m = true ∧ thetaCoversB (familyOfGroup ["_ŠČ0"] e) m = true) ∧
+    (∃ gs, parseGroups itemsSupersets2 = .ok gs ∧ nestedChecks itemsSupersets2 ["_ŠČ0", "_ŠČ1"] [4] gs = true ∧
+      ∀ e ∈ gs, ∀ m ∈ (familyOfGroup ["_ŠČ0", "_ŠČ1"] e).members,
+        memberOK (familyOfGroup ["_ŠČ0", "_ŠČ1"] e) m = true ∧ thetaCoversB (familyOfGroup ["_ŠČ0", "_ŠČ1"] e) m = true) := by
+  have key : ∀ (items : List T) (sp : List String) (sizes : List Nat),
+      (match parseGroups items with | .ok gs => nestedChecks items sp sizes gs | _ => false) = true →
+      ∃ gs, parseGroups items = .ok gs ∧ nestedChecks items sp sizes gs = true ∧
+        ∀ e ∈ gs, ∀ m ∈ (familyOfGroup sp e).members,
+          memberOK (familyOfGroup sp e) m = true ∧ thetaCoversB (familyOfGroup sp e) m = true := by
+    intro items sp sizes hc
+    obtain ⟨gs, hgs, hchk⟩ := ParseResult.ok_of_check (f := nestedChecks items sp sizes) hc
+    refine ⟨gs, hgs, hchk, fun e he => ?_⟩
+    unfold nestedChecks at hchk
+    simp only [Bool.and_eq_true, List.all_eq_true] at hchk
+    exact C02_end_to_end_hypotheses items gs hgs sp e he (hchk.1.2 e he).1 (hchk.1.2 e he).2
+  exact ⟨key _ _ _ (by decide +kernel), key _ _ _ (by decide +kernel)⟩
+end E2ESupersets
 
 end DI
